@@ -28,7 +28,7 @@ JOBS = {'quick': 4, 'thorough': 16}
 REQUIRED_MONITORS = ('optimiser_boundary', 'residue_guesser', 'protein_guesser', 'manager_routing', 'manager_rejection')
 REQUIRED_CLASSES = ('sizes:start-smaller', 'sizes:start-larger', 'sizes:tie', 'hydrogens:ignored', 'hydrogens:kept',
                     'pairs:on-hydrogen', 'pairs:duplicates', 'guess:mismatching-residue-count', 'routing:partial-dicts',
-                    'routing:preparsed-own-order', 'call:repeated-same-list-object',
+                    'routing:preparsed-own-order', 'call:repeated-same-list-object', 'end-molecule:attached-by-hand-named-like-another-species',
                     'reject:unknown-species', 'reject:malformed-pair', 'reject:index-out-of-range', 'reject:bad-deformation',
                     'reject:bad-hydrogen-flag')
 RULE = ('(a) molecule pairs (either one larger or tie, random hydrogens in both) x restraint lists (empty, partial, duplicates, '
@@ -336,9 +336,22 @@ def run_manager(ctx, case):
         log.append((self.start.name, restrictions, deformation_types, ignore_hydrogens))
     try:
         man = Manager.from_files(w['system_gro'], *[w['files'][n]['top_start'] for n in w['files']])
+        order_sys = [n for n in w['files'] if n in w['end_for']]
+        by_hand = None
+        if len(order_sys) >= 2 and i % 3 == 1:
+            # one species gets its end molecule attached by hand, and that molecule's own name is the name of ANOTHER
+            # mapped species that comes earlier in the system (names of hand-attached end molecules are free)
+            k = int(rng.integers(1, len(order_sys)))
+            by_hand, other = order_sys[k], order_sys[int(rng.integers(0, k))]
+            from .. import sysgen
+            sysgen.write_species_itp(dict(w['end_species'][by_hand], name=other), w['files'][by_hand]['top_end'])
+            ctx.hit('end-molecule:attached-by-hand-named-like-another-species')
         for n in w['end_for']:
             f = w['files'][n]
-            man.add_end_molecule(Molecule.from_files(f['gro_end'], f['top_end']))
+            if n == by_hand:
+                man.molecule_correspondence[n].end = Molecule.from_files(f['gro_end'], f['top_end'])
+            else:
+                man.add_end_molecule(Molecule.from_files(f['gro_end'], f['top_end']))
         complete = sorted(w['end_for'])
         sizes = {n: (len(w['species'][n]['atoms']), len(w['end_species'][n]['atoms'])) for n in complete}
         with bus.patched(Alignment, 'align_molecules', recorder):
@@ -378,7 +391,7 @@ def run_manager(ctx, case):
                     else:
                         ign[bad_name] = True
                 elif mode == 'malformed-pair':
-                    restr[victim] = [[(0, 0), (1,)], [(0, 0, 0)], [5], [(0, 0), 3]][int(rng.integers(0, 4))]
+                    restr[victim] = [[(0, 0), (1,)], [(0, 0, 0)], [5], [(0, 0), 3], [(0, 0), (0, 1, 2)], [(0, 0), (0, 0), (0, 0, 0, 0)]][int(rng.integers(0, 6))]
                 elif mode == 'index-out-of-range':
                     restr[victim] = [(sizes[victim][0] + int(rng.integers(0, 5)), 0)] if rng.random() < 0.5 else [(0, sizes[victim][1] + int(rng.integers(0, 5)))]
                 elif mode == 'bad-deformation':
